@@ -334,7 +334,7 @@ SRCTIE = {
       "Reader.index_levels", "ReaderCursor", "ReaderCursor.current", "ReaderCursor.reset", "ReaderCursor.new", "ReaderCursor.next_block_from_index",
       "ReaderCursor.prev_block_from_index", "ReaderCursor.move_on_first", "ReaderCursor.move_on_last", "ReaderCursor.move_on_next", "ReaderCursor.move_on_prev",
       "ReaderCursor.move_on_key_greater_than_or_equal_to", "ReaderCursor.move_on_key_lower_than_or_equal_to", "ReaderCursor.move_on_key_equal_to", "IndexBlockCursor.initial_index_blocks", "IndexBlockCursor.iter_index_blocks", "IndexBlockCursor.recursive_index_block.recursive", "IndexBlockCursor.recursive_index_block", "Reader.new", "Reader.into_cursor", "Metadata", "Metadata.read_from"]),
-    "Grenad.SrcTie.FullRoundTrip": ("SrcMeta,SrcReaderCursor,SrcReaderCursor2,SrcWriter", ["Block", "Block.read_from", "CompressionType", "Block.new", "BlockCursor.new", "Block.into_cursor", "IndexBlockCursor", "IndexBlockCursor.new",
+    "Grenad.SrcTie.FullRoundTrip": ("SrcMeta,SrcReaderCursor,SrcReaderCursor2,SrcWriter,SrcIter,SrcIterNext", ["Block", "Block.read_from", "CompressionType", "Block.new", "BlockCursor.new", "Block.into_cursor", "IndexBlockCursor", "IndexBlockCursor.new",
       "IndexBlockCursor.reset", "IndexBlockCursor.move_on_first", "IndexBlockCursor.move_on_last", "IndexBlockCursor.move_on_next",
       "IndexBlockCursor.move_on_prev", "IndexBlockCursor.move_on_key_greater_than_or_equal_to", "Reader", "Reader.compression_type", "Reader.index_block_offset",
       "Reader.index_levels", "ReaderCursor", "ReaderCursor.current", "ReaderCursor.reset", "ReaderCursor.new", "ReaderCursor.next_block_from_index",
@@ -369,8 +369,8 @@ SRCTIE = {
                                            "Entries.estimated_entries_memory_usage", "Sorter", "Sorter.threshold_exceeded"]),
 }
 for _p, _mods in {"C14": ["Varint", "Block", "C14Src"], "C13": ["Meta", "C13Src"], "C10": ["Meta", "C10Src"],
-                  "C09": ["Meta", "BlockWriter", "Varint", "C13Src", "CountWrite", "WriterBlock", "WriterInsert", "WriterFinish", "WriterRun", "Compression"], "C04": ["IterRange", "IterNext", "C04C05Src", "IterNew", "IterE2E"],
-                  "C05": ["IterPrefix", "C05Src", "IterNext", "C04C05Src", "IterNew", "IterE2E"], "C18": ["BlockWriter", "C18Src", "WriterBlock", "WriterInsert", "WriterRun"], "C15": ["BlockWriter", "WriterBuilder", "WriterCut", "WriterInsert", "WriterBuild"],
+                  "C09": ["Meta", "BlockWriter", "Varint", "C13Src", "CountWrite", "WriterBlock", "WriterInsert", "WriterFinish", "WriterRun", "Compression"], "C04": ["IterRange", "IterNext", "C04C05Src", "IterNew", "IterE2E", "FullRoundTrip"],
+                  "C05": ["IterPrefix", "C05Src", "IterNext", "C04C05Src", "IterNew", "IterE2E", "FullRoundTrip"], "C18": ["BlockWriter", "C18Src", "WriterBlock", "WriterInsert", "WriterRun"], "C15": ["BlockWriter", "WriterBuilder", "WriterCut", "WriterInsert", "WriterBuild"],
                   "C01": ["BlockWriter", "Varint", "Meta", "Block", "BlockCursor", "TBlockSrc", "BuiltSrc", "NoPanic", "EndToEnd", "BlockLoad", "WriterBlock", "WriterLemmas", "WriterCut", "WriterInsert", "WriterFinish", "WriterRun", "WriterBounds", "WriterBuild", "Compression", "ReaderCursorTie", "ReaderCursorTieStep", "ReaderE2E", "ReaderE2EIdx", "ReaderE2EGen", "ReaderE2ESmoke", "ReaderTotalBase", "ReaderTotalIdx", "ReaderTotal", "ReaderTotalSmoke", "FullRoundTrip", "ReaderAccessors"],
                   "C02": ["BlockCursor", "Smoke", "TBlockSrc", "NoPanic", "IndexCursorLoad", "IndexCursorIter", "IndexCursor", "ReaderCursorTie", "ReaderCursorTieStep", "ReaderE2E", "ReaderE2EIdx", "ReaderE2EGen", "ReaderTotal"],
                   "C03": ["IndexCursorLoad", "IndexCursorInit", "IndexCursorIter", "IndexCursorRec", "IndexCursor", "IndexCursorSmoke", "ReaderCursorTie", "ReaderCursorTieStep", "ReaderE2E", "ReaderE2EIdx", "ReaderE2EGen", "ReaderE2ESmoke", "ReaderTotalBase", "ReaderTotalIdx", "ReaderTotal", "ReaderTotalSmoke"],
